@@ -1071,6 +1071,18 @@ def check_C13(ctx):
 # ---------------------------------------------------------------------------
 # C14  print normal form
 # ---------------------------------------------------------------------------
+def parse_layout_date(layout, text):
+    """(y, m, d) of a date written in a layout made of 2006 / 01 / 02 and literals (fields the layout omits default to 0 / 1 / 1); raises when it does not fit"""
+    y, m, d = 0, 1, 1; i = 0; j = 0
+    while i < len(layout):
+        if layout.startswith("2006", i): y = int(text[j:j + 4]); assert len(text[j:j + 4]) == 4; i += 4; j += 4
+        elif layout.startswith("01", i): m = int(text[j:j + 2]); i += 2; j += 2
+        elif layout.startswith("02", i): d = int(text[j:j + 2]); i += 2; j += 2
+        else:
+            assert text[j] == layout[i]; i += 1; j += 1
+    assert j == len(text)
+    return (y, m, d)
+
 def check_C14(ctx):
     r = ctx.rng
     cases = []; metas = []
@@ -1128,6 +1140,32 @@ def check_C14(ctx):
         cases.append(c); metas.append((layout, items)); ctx.tally("midnight_gap_zone", zone)
         ctx.nontriv(logb + zone.encode())
     ires = cli_diff(ctx, cases, tag="C14:")
+    # on the implementation alone, against the abstract log: the printed days are the days of the log (same dates, same order, within the period), and
+    # every food of a day is printed once (duplicates of a day merged)
+    for c, (layout, items), i in zip(cases, metas, ires):
+        if c["cmd"] != "print" or i["status"] != "ok": continue
+        heads = [it[1] for it in items if it[0] == "heading"]
+        if any(h != h.strip(" \t:\"-") or not h for h in heads): continue       # a heading the parser would trim: outside this relation
+        if c.get("g_begin") is not None or c.get("g_end") is not None:
+            def key(h):
+                try: return parse_layout_date(layout, h)
+                except Exception: return None
+            lo = key(c["g_begin"]) if c.get("g_begin") is not None else None; hi = key(c["g_end"]) if c.get("g_end") is not None else None
+            if (c.get("g_begin") is not None and lo is None) or (c.get("g_end") is not None and hi is None) or any(key(h) is None for h in heads): continue
+            heads = [h for h in heads if (lo is None or key(h) >= lo) and (hi is None or key(h) <= hi)]
+        out = i["stdout"].decode("utf-8", "surrogateescape").split("\n")
+        got_heads = [l[:-1] for l in out if l and not l[0] in " \t" and l.endswith(":")]
+        rep = dict(kind="cli", case=c, impl=i)
+        if got_heads != heads:
+            ctx.violation("C14:printed-days-differ", "print shows the days %r, the log has %r" % (got_heads[:5], heads[:5]), rep); continue
+        day = None; seen = set()
+        for l in out:
+            if l and l[0] not in " \t": seen = set(); continue
+            mfood = re.match(r"^  - (.*): (-?[0-9.]+|NaN|[+-]Inf)$", l)
+            if mfood:
+                if mfood.group(1) in seen:
+                    ctx.violation("C14:food-printed-twice-in-a-day", "print lists %r twice in one day (duplicates of a day are merged)" % mfood.group(1), rep); break
+                seen.add(mfood.group(1))
     # second round: the tool reads its own output back under the same options
     second = []; idx = []
     for j, (c, i) in enumerate(zip(cases, ires)):
